@@ -3,6 +3,9 @@
 import json, os, sys
 sys.path.insert(0, os.path.dirname(os.path.abspath(__file__)))
 from manifest_data import CHECKS, NOT_YET, HOOK_COMMITS
+import glob
+for f in sorted(glob.glob('/verif/tools/manifest/C*.json')):
+    CHECKS[os.path.basename(f)[:-5]] = json.load(open(f))
 props = [json.loads(l) for l in open('/verif/properties.jsonl')]
 checks = []
 for p in props:
